@@ -201,6 +201,22 @@ func (l *Link) Attempts() int { l.mu.Lock(); defer l.mu.Unlock(); return l.nAtte
 func (l *Link) ReadCount() int { l.mu.Lock(); defer l.mu.Unlock(); return l.nRead }
 
 // FailRead makes the reading side fail now and forever; queued envelopes are lost.
+// FailedReads: how many Read calls have reported the injected read failure so far.
+func (l *Link) FailedReads() int {
+	l.mu.Lock()
+	defer l.mu.Unlock()
+	return l.failedReads
+}
+
+// Heal ends an injected failure: the same transport object works again (a transport
+// that reconnects underneath, or whose failed call was a one-off).
+func (l *Link) Heal() {
+	l.mu.Lock()
+	l.readErr, l.writeErr = nil, nil
+	l.failedReads = 0
+	l.mu.Unlock()
+}
+
 func (l *Link) FailRead(err error) {
 	l.mu.Lock()
 	l.readErr = err
